@@ -191,7 +191,7 @@ func checkC20(R *Run) {
 			case pc.kind == "temp" && (name == "os.OpenFile" || name == "os.Create"):
 				fresh := name == "os.Create"
 				if flags, ok := constInt(c.Args[1]); name == "os.OpenFile" && ok {
-					fresh = flags&0x400 == 0 && (flags&0x200 != 0 || flags&(0x40|0x80) == 0x40|0x80)
+					fresh = flags&P.osFlag("O_APPEND") == 0 && (flags&P.osFlag("O_TRUNC") != 0 || flags&(P.osFlag("O_CREATE")|P.osFlag("O_EXCL")) == P.osFlag("O_CREATE")|P.osFlag("O_EXCL"))
 				}
 				R.check(fresh, "atomic-replace", construct, P.ipos(ci), "temp file next to the live file, created or truncated", "the temp file is opened without O_TRUNC (or O_CREATE|O_EXCL) or with O_APPEND: bytes of an earlier, interrupted write stay in it and are renamed onto the live file")
 			case pc.kind == "live" && name == "os.Remove" && fname(fn) == "(*mobius.YAMLAccountManager).Delete":
@@ -199,7 +199,7 @@ func checkC20(R *Run) {
 			case pc.kind == "live" && name == "os.OpenFile":
 				// read-only open is fine
 				flags, ok := constInt(c.Args[1])
-				if ok && flags&0x3 == 0 && flags&(0x40|0x200|0x400) == 0 {
+				if ok && flags&0x3 == 0 && flags&(P.osFlag("O_CREATE")|P.osFlag("O_TRUNC")|P.osFlag("O_APPEND")) == 0 {
 					R.ok("atomic-replace", construct, P.ipos(ci), "read-only open")
 				} else {
 					R.bad("atomic-replace", construct, P.ipos(ci), "the live file is opened for writing in place (a crash between create/truncate and the end of the write leaves an empty or half-written file)")
